@@ -1019,10 +1019,14 @@ func runC07(p *core.Prog, r *core.Report, tier string) {
 			continue
 		}
 		k := 0
+		loopsT := naturalLoops(f)
 		for _, b := range f.Blocks {
 			iff, ok := b.Instrs[len(b.Instrs)-1].(*ssa.If)
 			if !ok {
 				continue
+			}
+			if innermostLoop(loopsT, b) == nil {
+				continue // the bound of a collector is tested in its loop
 			}
 			cmp, ok := iff.Cond.(*ssa.BinOp)
 			if !ok {
@@ -1134,6 +1138,24 @@ func runC07(p *core.Prog, r *core.Report, tier string) {
 			}
 			nFan++
 			noEarlyExit(p, r, "C07.i", l, "request fan-out over the configured providers")
+			// … and no element is passed over: every trip round the loop passes the go statement
+			nl := naturalLoops(f)
+			if h := innermostLoop(nl, g.Block()); h != nil {
+				if iff, ok := h.Instrs[len(h.Instrs)-1].(*ssa.If); ok {
+					_ = iff
+					var wit []ssa.Instruction
+					for si, succ := range h.Succs {
+						if !nl[h][succ] || succ == h {
+							continue
+						}
+						_ = si
+						if w := (core.PathQuery{Fn: f, StartEdge: &[2]*ssa.BasicBlock{h, succ}, Target: func(x ssa.Instruction) bool { return x.Block() == h }, Avoid: func(x ssa.Instruction) bool { return x == ssa.Instruction(g) }}).Find(); w != nil {
+							wit = w
+						}
+					}
+					r.Check(wit == nil, "C07.i", core.FnKey(f)+"|loop "+l.Describe()+"|every-element-asked", p.Pos(g.Pos()), "every trip round the loop starts the request", "an element of the loop can be passed over without its request being started (a `continue` ahead of the go statement): that provider is never asked", p.WitnessText(wit)...)
+				}
+			}
 		})
 	}
 	r.Floor("C07.i provider fan-outs", nFan, 14)
